@@ -4,7 +4,7 @@
    specification = C11.NodeSpec (Node 20's documented algorithm), scope
    predicates = C11.Scope.  Outcomes are compared in the property's classes:
    resolved to the same path / same package re-resolution / refused. *)
-From V Require Import Common.Base C11.Str C11.EsbuildResolve C11.NodeSpec C11.SortLemmas C11.Scope C11.ResolveProofs C11.Walk C11.NodeWalkSpec C11.WalkProofs.
+From V Require Import Common.Base C11.Str C11.EsbuildResolve C11.NodeSpec C11.SortLemmas C11.Scope C11.ResolveProofs C11.Walk C11.NodeWalkSpec C11.WalkProofs C11.CondsExt C11.WalkCore C11.WalkMain.
 Local Open Scope string_scope.
 
 (* esmParsePackageName = PACKAGE_RESOLVE steps 2, 4-7, for every specifier *)
@@ -175,11 +175,7 @@ Print Assumptions load_as_directory_eq.
 
 (* require(X) for relative and absolute X (steps 2-3 of "require(X) from module at
    path Y"): esbuild's resolveWithoutSymlinks gives exactly Node's answer.
-   FULL STATEMENT NOT YET PROVED (package_resolve_eq): the same equation for bare
-   and "#" specifiers, i.e. loadNodeModules / loadPackageImports against
-   LOAD_PACKAGE_IMPORTS / LOAD_PACKAGE_SELF / LOAD_NODE_MODULES, composed with
-   exports_resolve_eq_partial; those parts of Walk.v / NodeWalkSpec.v are tied to
-   esbuild and to Node by the correspondence run only. *)
+   The bare and "#" branches are package_resolve_eq_partial / package_imports_resolve_eq_partial below. *)
 Theorem require_relative_eq_partial : forall builtin fs, wf_fs fs -> no_ts_rewrite fs ->
   forall user dir x, is_package_path x = false -> has_trailing_slash x = false ->
   nres_of (resolve builtin fs KRequire user dir x) = require_resolve builtin fs user dir x.
@@ -205,3 +201,69 @@ Theorem package_resolve_eq_refuted_scope_boundary :
      = NFile (pw_ ["node_modules"; "rootpkg"; "copy.js"]).
 Proof. exact refuted_scope_boundary. Qed.
 Print Assumptions package_resolve_eq_refuted_scope_boundary.
+
+(* ---- bare and "#" specifiers: loadNodeModules / loadPackageImports against
+   LOAD_PACKAGE_SELF / LOAD_NODE_MODULES / LOAD_PACKAGE_IMPORTS ----
+   [agree m n]: Node resolves to p => esbuild resolves to p; Node answers
+   "builtin" => so does esbuild; Node fails (not found, or rejected by an
+   exports/imports map) => esbuild fails; nothing is claimed when the
+   specification leaves the modelled URL fragment (NOut).
+   Hypotheses, each excluding one recorded shape or a modelling limit:
+     wf_fs, no_ts_rewrite          file system well formed / no TypeScript rewrite target;
+     no_case_collision             D11 (the model looks names up exactly, esbuild case-insensitively);
+     nearest_crosses_nm = false    D12 (package scope beyond a node_modules directory);
+     bare_ok                       valid package name (D13) and no "", ".", ".." segment in the specifier;
+     pkgs_ok / pkgs_imports_ok     every exports / imports map in the tree is in the domain of the core
+                                   theorems (documented exclusions, URL fragment, no refuted shape D1..D10);
+     remap_ok                      the same for a bare target an imports map remaps to.
+   The result depends on the condition list only through membership
+   ([spec_depends_on_condition_membership]), which connects esbuild's condition
+   sets with Node's ["node"; "require"] ++ user. *)
+Theorem spec_depends_on_condition_membership : forall c1 c2 ex sub,
+  cond_equiv c1 c2 -> node_exports_resolve ex sub c1 = node_exports_resolve ex sub c2.
+Proof. exact node_exports_resolve_ext. Qed.
+Print Assumptions spec_depends_on_condition_membership.
+
+Theorem condition_sets_agree : forall user,
+  cond_equiv (conds_of KRequire user) (cjs_conds user) /\ cond_equiv (conds_of KImport user) (esm_conds user).
+Proof. exact (fun user => conj (conds_require_equiv user) (conds_import_equiv user)). Qed.
+Print Assumptions condition_sets_agree.
+
+(* the node_modules walk: every enclosing directory, every file system *)
+Theorem node_modules_walk_eq_partial : forall fs, wf_fs fs -> no_ts_rewrite fs ->
+  forall user x, bare_ok x = true -> pkgs_ok fs x ->
+  forall fuel dir,
+  agree (of_opt (nm_walk fs KRequire user fuel dir x)) (LOAD_NODE_MODULES fs (cjs_conds user) fuel x dir).
+Proof. exact nm_walk_agree. Qed.
+Print Assumptions node_modules_walk_eq_partial.
+
+Theorem package_resolve_eq_partial : forall builtin fs, wf_fs fs -> no_ts_rewrite fs ->
+  no_case_collision fs = true ->
+  forall user dir x,
+  is_package_path x = true -> prefixb [ch_hash] x = false ->
+  bare_ok x = true -> pkgs_ok fs x -> nearest_crosses_nm fs (length dir) dir = false ->
+  agree (resolve builtin fs KRequire user dir x) (require_resolve builtin fs user dir x).
+Proof. exact (fun b fs Hw Ht _ => package_resolve_bare_all b fs Hw Ht). Qed.
+Print Assumptions package_resolve_eq_partial.
+
+Theorem package_imports_resolve_eq_partial : forall builtin fs, wf_fs fs -> no_ts_rewrite fs ->
+  no_case_collision fs = true ->
+  forall user dir x,
+  is_package_path x = true -> prefixb [ch_hash] x = true ->
+  pkgs_imports_ok fs x -> remap_ok builtin fs user x ->
+  bare_ok x = true -> pkgs_ok fs x ->
+  nearest_crosses_nm fs (length dir) dir = false ->
+  agree (resolve builtin fs KRequire user dir x) (require_resolve builtin fs user dir x).
+Proof. exact (fun b fs Hw Ht _ => package_resolve_imports_all b fs Hw Ht). Qed.
+Print Assumptions package_imports_resolve_eq_partial.
+
+(* without bare_ok the statement is false of the faithful model (finding D13,
+   replayed by the harness witness "invalid-package-name-taken-as-self-reference") *)
+Theorem package_resolve_eq_refuted_nameless_self_reference :
+  wf_fsb w_nameless_fs = true /\ no_tsb w_nameless_fs = true /\ no_case_collision w_nameless_fs = true
+  /\ nearest_crosses_nm w_nameless_fs 0 [] = false
+  /\ bare_ok (s_ "@foo") = false
+  /\ resolve (fun _ => false) w_nameless_fs KRequire [] [] (s_ "@foo") = RFail
+  /\ require_resolve (fun _ => false) w_nameless_fs [] [] (s_ "@foo") = NFile (pw_ ["node_modules"; "@foo"; "index.js"]).
+Proof. exact refuted_nameless_self_reference. Qed.
+Print Assumptions package_resolve_eq_refuted_nameless_self_reference.
